@@ -170,6 +170,19 @@ Fixpoint batch_add {V} (b : list (server * list V)) (sv : server) (v : V) : list
   | (s', l) :: t => if list_eqb s' sv then (s', l ++ [v]) :: t else (s', l) :: batch_add t sv v
   end.
 
+(* d[k] = v on an insertion-ordered dict of DTuple [k; v] items (Python's key equality) *)
+Fixpoint dict_put (d : list dyn) (k v : dyn) : list dyn :=
+  match d with
+  | [] => [DTuple [k; v]]
+  | DTuple [k'; v'] :: r => if dyn_eqb k' k then DTuple [k'; v] :: r else DTuple [k'; v'] :: dict_put r k v
+  | x :: r => x :: dict_put r k v end.
+(* set_many's batches are dicts: client_batches[server][key] = value (a key given twice for one server is sent once) *)
+Fixpoint batch_put (b : list (server * list dyn)) (sv : server) (k v : dyn) : list (server * list dyn) :=
+  match b with
+  | [] => [(sv, [DTuple [k; v]])]
+  | (s', l) :: t => if list_eqb s' sv then (s', dict_put l k v) :: t else (s', l) :: batch_put t sv k v
+  end.
+
 Definition keys_of (values : list dyn) : list dyn :=
   flat_map (fun kv => match kv with DTuple [k; _] => [k] | _ => [] end) values.
 Definition not_in (l : list dyn) (x : dyn) : bool := negb (existsb (dyn_eqb x) l).
@@ -232,7 +245,7 @@ Fixpoint collect_set (vs : list dyn) (batches : list (server * list dyn)) (faile
       '(osv, k) <== get_client key ;;
       match osv with
       | None => collect_set t batches (failed ++ [k])
-      | Some sv => collect_set t (batch_add batches sv (DTuple [k; value])) failed
+      | Some sv => collect_set t (batch_put batches sv k value) failed
       end
   | _ :: t => collect_set t batches failed
   end.
@@ -256,11 +269,6 @@ Fixpoint collect_get (ks : list dyn) (batches : list (server * list dyn)) : HM (
       match osv with None => collect_get t batches | Some sv => collect_get t (batch_add batches sv k) end
   end.
 (* end.update(result) *)
-Fixpoint dict_put (d : list dyn) (k v : dyn) : list dyn :=
-  match d with
-  | [] => [DTuple [k; v]]
-  | DTuple [k'; v'] :: r => if dyn_eqb k' k then DTuple [k'; v] :: r else DTuple [k'; v'] :: dict_put r k v
-  | x :: r => x :: dict_put r k v end.
 Definition dict_update (acc : list dyn) (res : dyn) : list dyn :=
   match res with
   | DDict items => fold_left (fun d kv => match kv with DTuple [k; v] => dict_put d k v | _ => d end) items acc
